@@ -2,7 +2,7 @@
    ExtrOcamlBasic only: bool, option, unit, list, prod, sumbool, sumor map to OCaml's own
    types; N, Z, positive, nat stay the extracted Coq datatypes.  No Extract Constant. *)
 From Coq Require Extraction ExtrOcamlBasic.
-From Verif Require Import Base.Bytestr gen.Tables Lex.LexModel.
+From Verif Require Import Base.Bytestr gen.Tables Lex.LexModel Cli.Tsh.
 Extraction Language OCaml.
 Separate Extraction
-  Lex.LexModel.tokenize Tables.toktype_index.
+  Lex.LexModel.tokenize Tables.toktype_index Cli.Tsh.tsh.
